@@ -33,6 +33,7 @@ structure Emitted where
   offset : Nat             -- where its 8-byte length prefix starts
   level  : Nat             -- 0 = data block; ℓ ≥ 1 = index_block_writers[levels + 1 - ℓ] … see `W.idxLevel`
   raw    : Bytes           -- uncompressed block bytes (`BW.finish`)
+  items  : List Entry := [] -- ghost: the entries the block writer held
   deriving Repr, Inhabited
 
 structure W where
@@ -78,7 +79,7 @@ def cutLevels (cd : Codec) (bs : Nat) : Nat → List BW → Bytes → List Emitt
             let raw := cur.finish
             let idx' := (idx.set i parent').set (i+1) cur.reset
             cutLevels cd bs i idx' (out ++ blockBytes cd raw)
-              (log ++ [{ offset := out.length, level := idx.length - (i+1), raw := raw }])
+              (log ++ [{ offset := out.length, level := idx.length - (i+1), raw := raw, items := cur.items }])
         | none => cutLevels cd bs i idx out log
       else cutLevels cd bs i idx out log
     | _, _ => .ok (idx, out, log)
@@ -101,7 +102,7 @@ def insert (cd : Codec) (w : W) (k v : Bytes) : Except Trap W :=
           | .ok lastIdx' =>
             let raw := bw.finish
             let out := w.out ++ blockBytes cd raw
-            let log := w.log ++ [{ offset := w.out.length, level := 0, raw := raw }]
+            let log := w.log ++ [{ offset := w.out.length, level := 0, raw := raw, items := bw.items }]
             let idx := w.idx.set (n - 1) lastIdx'
             match cutLevels cd bs (n - 1) idx out log with
             | .error t => .error t
@@ -127,7 +128,7 @@ def flushLevels (cd : Codec) : Nat → List BW → Bytes → List Emitted → Na
         let step (idx : List BW) : Except Trap (List BW × Bytes × List Emitted × Nat) :=
           let raw := cur.finish
           flushLevels cd i (idx.set i cur.reset) (out ++ blockBytes cd raw)
-            (log ++ [{ offset := off, level := idx.length - i, raw := raw }]) off
+            (log ++ [{ offset := off, level := idx.length - i, raw := raw, items := cur.items }]) off
         if i = 0 then step idx else
         match idx[i - 1]? with
         | some parent =>
@@ -139,7 +140,7 @@ def flushLevels (cd : Codec) : Nat → List BW → Bytes → List Emitted → Na
         if i = 0 then
           let raw := cur.finish
           flushLevels cd i (idx.set i cur.reset) (out ++ blockBytes cd raw)
-            (log ++ [{ offset := off, level := idx.length - i, raw := raw }]) off
+            (log ++ [{ offset := off, level := idx.length - i, raw := raw, items := cur.items }]) off
         else flushLevels cd i idx out log off
 
 /-- `Writer::into_inner`: the complete file, or the trap the Rust code would hit. -/
@@ -156,7 +157,7 @@ def finish (cd : Codec) (w : W) : Except Trap (Bytes × List Emitted) :=
         | .ok lastIdx' =>
           let raw := w.bw.finish
           .ok (w.idx.set (n - 1) lastIdx', w.out ++ blockBytes cd raw,
-               w.log ++ [{ offset := w.out.length, level := 0, raw := raw }])
+               w.log ++ [{ offset := w.out.length, level := 0, raw := raw, items := w.bw.items }])
       | none => .ok (w.idx, w.out, w.log)
     | none => .ok (w.idx, w.out, w.log)
   match r with
@@ -165,11 +166,10 @@ def finish (cd : Codec) (w : W) : Except Trap (Bytes × List Emitted) :=
     match flushLevels cd idx.length idx out log out.length with
     | .error t => .error t
     | .ok (idx, out, log, root) =>
-      -- `self.index_block_writers.len() as u8 - 1` (overflow-checked build)
-      let lenU8 := idx.length % 256
-      if lenU8 = 0 then .error .u8Overflow else
+      -- `(self.index_block_writers.len() - 1) as u8` (after the repair of finding F2; the pinned
+      -- code computed `len() as u8 - 1`, which traps for 256 writers — see Props/C01)
       let m : Meta.Meta :=
-        { version := 2, root := root, codec := cd.id, count := w.count, levels := lenU8 - 1 }
+        { version := 2, root := root, codec := cd.id, count := w.count, levels := (idx.length - 1) % 256 }
       .ok (out ++ Meta.encode m, log)
 
 /-- Insert all pairs in order, then finish. -/
